@@ -32,6 +32,9 @@ def hook(st, phase, c, line):
         return
     env = dict(st.old_locals or {})
     if phase == 'before':
+        if not getattr(fc, 'yields', False):
+            # a method whose contract promises atomicity (callers keep their facts across it) must not yield
+            st.prove('yield[%s]@%d/caller-declared-atomic' % (c.key, line), z3.BoolVal(False), kind='yield', lineno=line)
         for i, inv in enumerate(mon['inv']):
             st.prove('yield[%s]@%d/inv#%d' % (c.key, line, i), E.spec_bool(st, inv, env), kind='yield', lineno=line)
         st.ghost['$pre_yield_heap'] = dict(st.heap)
